@@ -162,6 +162,31 @@ func run(r *core.Run) {
 			do(&model.Expr{Op: "|", Args: []*model.Expr{l, d}, Marks: []bool{false, false}})
 		}
 	}
+	r.Section("S9: (leaf | (marked disjunction w2)) & (disjunction w2), both orders, 4 leaves {1,2,3,int}")
+	var t4 []*model.Expr
+	for _, l := range leaves {
+		switch l.Src {
+		case "1", "2", "3", "int":
+			t4 = append(t4, leafE(l))
+		}
+	}
+	d4 := collect(t4, 2, true)
+	for _, d := range d4 {
+		if !d.HasMark() {
+			continue
+		}
+		for _, l := range t4 {
+			for _, nested := range []*model.Expr{
+				{Op: "|", Args: []*model.Expr{l, d}, Marks: []bool{false, false}},
+				{Op: "|", Args: []*model.Expr{d, l}, Marks: []bool{false, false}},
+			} {
+				for _, o := range d4 {
+					do(and(nested, o))
+					do(and(o, nested))
+				}
+			}
+		}
+	}
 	if r.Thorough() {
 		r.Section("S6: (disjunction w2) & (disjunction w2), all leaves")
 		for _, a := range d2 {
@@ -256,6 +281,39 @@ func implKey(v cue.Value) (key string, concrete bool) {
 // collapsedTag marks expressions containing a marked disjunction all of whose
 // disjuncts are textually equal (`*x | x`), used to key a known finding.
 func collapsedTag(e *model.Expr) string {
+	return collapsedTag1(e) + nestedRightTag(e)
+}
+
+// nestedRightTag marks expressions in which the right operand of an & is an
+// unmarked disjunction that contains a marked disjunction.
+func nestedRightTag(e *model.Expr) string {
+	found := false
+	var walk func(e *model.Expr)
+	walk = func(e *model.Expr) {
+		if e.Op == "&" {
+			r := e.Args[1]
+			if r.Op == "|" {
+				marked := false
+				for _, m := range r.Marks {
+					marked = marked || m
+				}
+				if !marked && r.HasMark() {
+					found = true
+				}
+			}
+		}
+		for _, a := range e.Args {
+			walk(a)
+		}
+	}
+	walk(e)
+	if found {
+		return " [nested-default-in-right-operand]"
+	}
+	return ""
+}
+
+func collapsedTag1(e *model.Expr) string {
 	found := false
 	var walk func(e *model.Expr)
 	walk = func(e *model.Expr) {
@@ -364,7 +422,7 @@ func check(r *core.Run, ctx *cue.Context, c kase) {
 	default:
 		r.Outcome("ambiguous")
 		if iconc {
-			r.Violation(fmt.Sprintf("ambiguous default silently resolved: model=%v impl=%s: %s", cand, ikey, c.Expr), c,
+			r.Violation(fmt.Sprintf("ambiguous default silently resolved: model=%v impl=%s: %s%s", cand, ikey, c.Expr, collapsedTag(c.Tree)), c,
 				fmt.Sprintf("model: %d distinct surviving candidates %v (default part used: %v); implementation Default() = %v", len(cand), cand, usedDefault, d))
 			return
 		}
